@@ -253,6 +253,12 @@ class Tr(object):
                 raise Unsupported("unknown identifier %s" % n)
             if segs[-2] in ("usize", "u64") and segs[-1] == "MAX":
                 return "18446744073709551615"
+            if segs[0] == "Error" and len(segs) == 2:
+                return segs[1]
+            if segs[0] == "StatusCode" and segs[1] in rs2coq.STATUS:
+                return str(rs2coq.STATUS[segs[1]])
+            if segs[0] == "CloseReason" and segs[1] in REASONS:
+                return segs[1]
             c = self.ctor(segs)
             if c:
                 if c[1] is not None:
@@ -281,6 +287,9 @@ class Tr(object):
             a, b = self.pure(e[2], env), self.pure(e[3], env)
             if op in ("==", "!="):
                 et = self.is_enum_expr(e[2], env) or self.is_enum_expr(e[3], env)
+                if any(x[0] == "path" and x[1][0] == "Error" for x in (e[2], e[3])):
+                    t = "(err_eqb %s %s)" % (a, b)
+                    return t if op == "==" else "(negb %s)" % t
                 if et:
                     if et not in ENUM_EQB:
                         raise Unsupported("equality on %s" % et)
@@ -396,6 +405,10 @@ class Tr(object):
             return "(" + ", ".join(pts) + ")", env
         if k == "ppath":
             segs = p[1]
+            if getattr(self, "_res_pat", False) and segs in (["Ok"], ["Err"]):
+                self._res_pat = False
+                t, env = self.pat(p[2][0], env, None)
+                return "%s %s" % (segs[0], t), env
             if segs == ["Some"] or segs == ["Ok"]:
                 t, env = self.pat(p[2][0], env, None)
                 return "Some %s" % t, env
@@ -441,6 +454,8 @@ class Tr(object):
             return "(Some %s)" % self.pure(args[0], env)
         if segs == ["log_data"]:
             return "tt"
+        if segs == ["add_close_reason"]:
+            raise Impure()
         if segs[-2:] == ["str", "from_utf8"]:
             return "(std_from_utf8 %s)" % self.pure(args[0], env)
         if segs[-1] == "from_str_radix" and len(args) == 2 and args[1] == ("num", 16):
@@ -558,7 +573,7 @@ class Tr(object):
         if k == "call" and e[1] == ("path", ["Ok"]) and self.info.kind == "res" and self.info.rust_ret.startswith("Result"):
             return self.cps(e[2][0], env, lambda v, env2: self.ret_ok(v, env2))
         if k == "call" and e[1] == ("path", ["Err"]):
-            return self.err_of(e[2][0])
+            return self.err_of(e[2][0], env)
         if k == "macro" and e[1] == "unreachable":
             return 'Panic "%s: unreachable!() in %s"' % (self.cfg["file"], self.cfg["rust"])
         if k == "return":
@@ -571,7 +586,9 @@ class Tr(object):
     def tail_value(self, v, env):
         return self.ret_ok(v, env)
 
-    def err_of(self, e):
+    def err_of(self, e, env=None):
+        if env is not None and e[0] == "path" and len(e[1]) == 1 and e[1][0] in env and env[e[1][0]].kind == "val":
+            return "Err %s" % env[e[1][0]].coq
         if e[0] == "path" and e[1][0] == "Error":
             return "Err %s" % e[1][-1]
         if e[0] == "call" and e[1][0] == "path" and e[1][1][0] == "Error":
@@ -673,15 +690,23 @@ class Tr(object):
     def cps_match(self, e, env, k, tail_mode=False):
         place = self.place_of(e[1], env)
 
+        is_res = self.ty_of(e[1], env) == "res"     # a value of the result monad (a substituted call of a modelled function)
+
         def go(scrut, env2):
             arms = []
             for pat, body in e[2]:
-                pt, env3 = self.pat(pat, env2, place)
+                self._res_pat = is_res
+                try:
+                    pt, env3 = self.pat(pat, env2, place)
+                finally:
+                    self._res_pat = False
                 if tail_mode:
                     bt = self.tail(body, env3)
                 else:
                     bt = self.cps(body, env3, lambda v, env4: k(v, self.keep_alias(env2, env4, v)))
                 arms.append("| %s => %s" % (pt, bt))
+            if is_res:
+                arms.append("| Panic panic_site => Panic panic_site")
             return "match %s with %s end" % (scrut, " ".join(arms))
         return self.cps(e[1], env, go)
 
@@ -715,6 +740,14 @@ class Tr(object):
                 raise Unsupported("call of a computed function")
             if f[1] == ["log_data"]:
                 return k("tt", env)
+            if f[1] == ["add_close_reason"] and len(args) == 2:
+                a0 = args[0]
+                while a0[0] == "unary":
+                    a0 = a0[2]
+                if a0[0] != "path" or a0[1][0] not in env or not env[a0[1][0]].mutable:
+                    raise Unsupported("add_close_reason target")
+                v = env[a0[1][0]].coq
+                return "bind (add_reason %s %s) (fun %s => %s)" % (v, self.pure(args[1], env), v, k("tt", env))
             fi = self.known_fn((self.impl if f[1][-2] == "Self" else f[1][-2]) if len(f[1]) >= 2 else None, f[1][-1])
             if fi is None:
                 return self.cps_list(args, env, lambda vs, env2: k(self.pure(("call", f, [("raw", v) for v in vs]), env2), env2))
@@ -1449,6 +1482,45 @@ def translate_skeleton(text, cfg, consts):
     return "Definition %s %s : option tag * list reason :=\n  %s." % (cfg["coq"], " ".join("(%s : bool)" % f for f in cfg["params"]), code)
 
 
+# --------------------------------------------------------------------------------------------------------------------
+# Flag functions of src/client/flow.rs: functions whose effect is on a few fields of `self.inner` (flags, the close-reason list) and
+# whose inputs can be named by a substitution (`self.inner.x` becomes the mutable parameter inner_x, the call of a parser that the
+# model has its own definition of becomes a parameter of the result monad).  Translated by the same translator as FUNCS2.
+FLOWFUNCS = [
+    dict(coq="gen_try_read_100", file="src/client/flow.rs", impl=r"impl<B>\s+Flow<B,\s*Await100>", rust="try_read_100",
+         subst=[(r"try_parse_response::<0>\(input\)", "parsed"), (r"self\.inner\.", "inner_"), (r"response\.status\(\)", "response")],
+         params=[("inner_close_reason", "mutval", "list reason", None), ("inner_should_send_body", "mutval", "bool", None),
+                 ("inner_await_100_continue", "mutval", "bool", None), ("parsed", "val", "res (option (N * N))", "res")],
+         rust_ret="Result<usize, Error>"),
+]
+
+
+def translate_custom(text, cfg):
+    sig, body = find_fn_in_impl(text, cfg["impl"], cfg["rust"])
+    for rx, rep in cfg["subst"]:
+        body, n = re.subn(rx, rep, body)
+        if n == 0:
+            raise Unsupported("expected source pattern not found: %s" % rx)
+    from tools.rsparse import tokenize
+    pp = P(tokenize(body))
+    blk = pp.block()
+    if pp.peek()[0] != "eof":
+        raise Unsupported("trailing tokens")
+    ps = [(n, k, t) for n, k, t, _ in cfg["params"]]
+    info = FnInfo(cfg["coq"], ps, "res", rust_ret=cfg["rust_ret"])
+    tr = Tr(cfg, {}, {})
+    tr.info = info
+    tr.types = {}
+    env = {"__order__": []}
+    binders = []
+    for n, k, t, ty in cfg["params"]:
+        env = tr.bind(env, n, B("val", cn(n), ty=ty, mutable=(k == "mutval")))
+        binders.append("(%s : %s)" % (cn(n), t))
+        tr.types[cn(n)] = t
+    code = tr.stmts(blk[1], blk[2], env, None, tail_mode=True)
+    return "\n".join(tr.aux + ["Definition %s %s :=\n  %s." % (cfg["coq"], " ".join(binders), code)])
+
+
 BASELINE = os.path.join(os.path.dirname(os.path.abspath(__file__)), "gen2_baseline.json")
 
 
@@ -1504,6 +1576,21 @@ def _generate(repo, base, force):
                 raise
             chunks.append("(* src/client/flow.rs :: fn %s -- NOT TRANSLATED (%s): the skeleton at the pinned commit stands in *)\n%s\n" % (
                 cfg["rust"], str(ex).replace("*)", "* )"), fb["code"]))
+    for cfg in FLOWFUNCS:
+        try:
+            if cfg["coq"] in force:
+                raise Unsupported(force[cfg["coq"]])
+            code = translate_custom(open(os.path.join(repo, cfg["file"])).read(), cfg)
+            chunks.append("(* %s :: fn %s (fields of self.inner as parameters) *)\n%s\n" % (cfg["file"], cfg["rust"], code))
+            done.append(cfg["coq"])
+            newbase[cfg["coq"]] = {"code": code, "params": [], "kind": "flags", "rust_ret": "", "calls": []}
+        except (Unsupported, Impure, OSError, ValueError, KeyError, IndexError, AttributeError, TypeError, RecursionError) as ex:
+            failed[cfg["coq"]] = "%s: %s" % (type(ex).__name__, ex)
+            fb = base.get(cfg["coq"])
+            if fb is None:
+                raise
+            chunks.append("(* %s :: fn %s -- NOT TRANSLATED (%s): the translation at the pinned commit stands in *)\n%s\n" % (
+                cfg["file"], cfg["rust"], str(ex).replace("*)", "* )"), fb["code"]))
     return "\n".join(chunks), done, failed, newbase
 
 
@@ -1521,7 +1608,7 @@ def regenerate2(repo, out_path, write_baseline=False, force_all=None):
         base = json.load(open(BASELINE))
     force = {}
     if force_all:
-        force = dict((c["coq"], force_all) for c in FUNCS2 + SKELETONS)
+        force = dict((c["coq"], force_all) for c in FUNCS2 + SKELETONS + FLOWFUNCS)
     for _round in range(len(FUNCS2) + 2):
         text, done, failed, newbase = _generate(repo, base, force)
         more = dict((n, r) for n, r in failed.items() if n not in force)
